@@ -669,6 +669,46 @@ def c16_execute(t, dump, tier, lib):
                 res.append(BFinding('C16', 'cmd:Execute format -f', t.tag, 'file-differs', 'file holds %r' % (fs.get('/work/in.dsl') or b'')[:80], {'text': t.text}))
             if lib_err is not None and code == 0:
                 res.append(BFinding('C16', 'cmd:Execute ' + ' '.join(argv[1:3]), t.tag, 'error-exit-zero', 'syntax error but exit status 0', {'text': t.text}))
+    # compile with and without the subcommand word: same exit status, same files - also when a flag VALUE happens to be a
+    # subcommand name or the input file is called like one
+    if lib_err is None and not dump.get('syntax_errors') and t.tag.startswith(('p:', 'c:', 'l:', 'f:obj', 'f:match', 'f:inline')):
+        for tail in (['-f', 'in.dsl', '-g', 'format'], ['-f', 'in.dsl', '-r', 'compile', '-p', 'out/py'], ['-f', 'format', '-j', 'help']):
+            outs = []
+            for argv in (['fin-protoc'] + tail, ['fin-protoc', 'compile'] + tail):
+                def runc(c, argv=argv):
+                    M = make_machine(c)
+                    snap = Snapshot(prog, dump).load()
+                    install_parse_stubs(M, snap, None)
+                    install_cobra_stubs(M)
+                    M.run_init(MOD + '/cmd')
+                    m = M.call(PARSER + '.VerifVisit', [snap.tree])
+                    M.env['parse_result'] = m
+                    M.store(M.gptr('os.Args', gtid(M, 'os.Args')), M.mkslice([go_str(x) for x in argv]))
+                    M.env['fs'].clear()
+                    M.effects = []
+                    M.stdout = []
+                    code = 0
+                    try:
+                        M.call(MOD + '/cmd.Execute', [])
+                    except GoExit as ge:
+                        code = ge.code
+                    return code, dict(M.env['fs'])
+                try:
+                    _, pp = explore([], runc, 8)
+                except Unsupported as u:
+                    stats['inconclusive'].append('execute compile %s: %s' % (tail, str(u)[:120]))
+                    outs = None
+                    break
+                vals = [v for (k, v), pc in pp if k == 'ok']
+                stats['paths'] += len(pp)
+                if len(vals) != 1:
+                    outs = None
+                    break
+                outs.append(vals[0])
+            if outs and outs[0] != outs[1]:
+                res.append(BFinding('C16', 'cmd:Execute compile', t.tag, 'implicit-differs:' + '_'.join(x for x in tail if not x.startswith('-'))[:40],
+                                    'fin-protoc %s: exit %s and %d files; with the word "compile": exit %s and %d files' % (
+                                        ' '.join(tail), outs[0][0], len(outs[0][1]), outs[1][0], len(outs[1][1])), {'text': t.text, 'argv': tail}))
     return res, stats
 
 
@@ -695,13 +735,14 @@ def c16_compile(t, dump, tier):
     #   stale: files of the same names and the same length with other content
     cases = [(('go', 'python'), 'own', 'longer'), (('lua', 'rust', 'go', 'java', 'python', 'cpp'), 'own', 'longer'), (('cpp',), 'own', 'longer'), (('rust', 'java'), 'own', 'longer'),
              (('go', 'python'), 'shared', 'longer'), (('java', 'lua', 'python'), 'shared', 'none'), (('go', 'rust'), 'own', 'same'), (('python', 'cpp'), 'own', 'stale'),
-             (('go', 'java'), 'own', 'none')]
+             (('go', 'java'), 'own', 'none'), (('lua', 'go'), 'own', 'none'), (('lua', 'rust', 'java'), 'own', 'none'), (('python', 'go'), 'own', 'none')]
     for sub, layout, pre in cases:
         def dirof(g, layout=layout):
             return '/out/shared' if layout == 'shared' else '/out/' + g
         # expected: union of dir/name -> bytes for the requested generators (each alone on a fresh model)
         want = {}
         ok = True
+        refusers = []
         for g in sub:
             M1 = make_machine(PathCtl())
             s1 = Snapshot(prog, dump).load()
@@ -711,9 +752,35 @@ def c16_compile(t, dump, tier):
             except (GoPanic, Unsupported):
                 ok = False
                 break
+            if r[1] is not None:
+                refusers.append(g)
+                continue
             for k, v in filemap_to_py(M1, r[0]).items():
                 want['%s/%s' % (dirof(g), k)] = v
         if not ok:
+            continue
+        if refusers:
+            # a requested target refuses this program (e.g. no root packet): the command must fail, whatever the other targets do
+            def runr(c, sub=sub, dirof=dirof):
+                M = make_machine(c)
+                snap = Snapshot(prog, dump).load()
+                m = M.call(PARSER + '.VerifVisit', [snap.tree])
+                M.env['parse_result'] = m
+                M.effects = []
+                M.stdout = []
+                outs = GoMap()
+                for g in GENS:
+                    outs.set(go_str(g), go_str(dirof(g)) if g in sub else '')
+                return M.call(MOD + '/cmd.Compile', [go_str('in.dsl'), outs])
+            try:
+                _, pr = explore([], runr, 16)
+                for (kind, val), pc in pr:
+                    stats['paths'] += 1
+                    if kind == 'ok' and val is None:
+                        res.append(BFinding('C16', 'cmd:compile', t.tag, 'refusal-dropped:' + '+'.join(sub),
+                                            'compile -%s: generator %s refuses the program, but the command reports success' % ('+'.join(sub), '+'.join(refusers)), {'text': t.text}))
+            except Unsupported as u:
+                stats['inconclusive'].append('compile %s: %s' % ('+'.join(sub), str(u)[:150]))
             continue
         lib = seq_outputs(prog, dump, sub, dirof, layout)
         label = '%s[%s,%s]' % ('+'.join(sub), layout, pre)
